@@ -50,6 +50,13 @@ def atom_facts(cond, truth):
                 if p:
                     nonnull = (e["op"] == "!=") == t
                     out.add(("eng:" + p) if nonnull else ("dis:" + p))
+        # x == NAMED_CONSTANT (enumerator / constexpr global): value facts
+        for a, b in ((l, r), (r, l)):
+            if isinstance(b, dict) and b.get("k") == "ref" and b.get("kind") in ("global", "enumerator") and "cv" in b:
+                p = X.path(a)
+                if p:
+                    same = (e["op"] == "==") == t
+                    out.add("%s:%s==%s" % ("eq" if same else "ne", p, b.get("qname", b.get("name"))))
         # x.size() == 0 / != 0 ; x.empty() handled below
         for a, b in ((l, r), (r, l)):
             v = X.const_val(b)
@@ -164,6 +171,8 @@ def _apply_kills(facts, dead):
             out.add(f)
             continue
         p = f.split(":", 1)[1] if not f.startswith("alt:") else f.split(":", 2)[2]
+        if f.startswith("eq:") or f.startswith("ne:"):
+            p = p.split("==", 1)[0]
         if any(p == d or p.startswith(d + ".") or p.startswith(d + "[") or d.startswith(p + ".") for d in dead):
             continue
         out.add(f)
